@@ -5,7 +5,10 @@ use crate::util::heap::layout::Mmapper;
 use crate::util::os::*;
 use crate::util::Address;
 use bytemuck::NoUninit;
+#[cfg(not(mmtk_verif))]
 use std::sync::Mutex;
+#[cfg(mmtk_verif)]
+use crate::util::verif::sync::Mutex;
 
 mod byte_map_storage;
 #[cfg(target_pointer_width = "64")]
